@@ -1,3 +1,38 @@
-/- C09 — property theorems only (helper lemmas live in `Rooc/Proofs`). -/
+/-
+C09 — Expressions parse with the documented precedence and associativity.
+PROPERTY THEOREMS ONLY (helper lemmas live in `Rooc/Proofs`).
+-/
+import Lean
+import Rooc.Syntax.Parse
 namespace Rooc.Props.C09
+open Rooc Rooc.Syntax
+
+/-- The documented operator table (properties.jsonl C09): level 1 = loosest. -/
+def docLevel : BinOp → Nat
+  | .implies | .iff => 1
+  | .or => 2
+  | .xor => 3
+  | .and => 4
+  | .add | .sub => 5
+  | .mul | .div => 6
+def docRightAssoc : BinOp → Bool
+  | .implies => true
+  | _ => false
+/-- the pest rule that carries each operator -/
+def docRule : BinOp → String
+  | .add => "add" | .sub => "sub" | .mul => "mul" | .div => "div" | .and => "and_op" | .or => "or_op"
+  | .xor => "xor_op" | .implies => "implies_op" | .iff => "iff_op"
+def docUnRule : UnOp → String
+  | .neg => "neg" | .not => "not_op"
+
+def allBinOps : List BinOp := [.add, .sub, .mul, .div, .and, .or, .xor, .implies, .iff]
+
+/-- The REGENERATED Pratt table is the documented one: binding power `10 + 10·level`, `implies`
+right-associative, everything else left-associative, both prefix operators above every infix. -/
+theorem table_documented :
+    (∀ o ∈ allBinOps, getOp (docRule o) = some (if docRightAssoc o then .inR else .inL, 10 + 10 * docLevel o)
+        ∧ infixArm (docRule o) = some o)
+    ∧ (∀ u ∈ [UnOp.neg, UnOp.not], getOp (docUnRule u) = some (.pre, 80) ∧ prefixArm (docUnRule u) = some u) := by
+  decide
+
 end Rooc.Props.C09
